@@ -36,13 +36,13 @@ def row_params(an):
 HEIGHTS = [0.0, 35.0, -20.0, 260.0, 12.0]
 
 
-def generic_part(V, tr, sd, checks=("C01",), emit=None, fluid=None, heights=False):
+def generic_part(V, tr, sd, checks=("C01",), emit=None, fluid=None, heights=False, cap_quick=1200):
     """arbitrary nets emitted by the connectivity model, any component mix: reported flows must balance"""
     rnd = random.Random(sd + 1)
     r, nets = c04.gen_nets(emit or c04.SIM_EMIT, simulate="num=%d" % (40 if tr == "quick" else 700), depth=18, seed=500 + sd, timeout=1200)
     nets = [n for n in nets if n["sup"]]
-    if len(nets) > (1200 if tr == "quick" else 30000):
-        nets = rnd.sample(nets, 1200 if tr == "quick" else 30000)
+    if len(nets) > (cap_quick if tr == "quick" else 30000):
+        nets = rnd.sample(nets, cap_quick if tr == "quick" else 30000)
     jobs = []
     for i, n in enumerate(nets):
         fl = fluid or ("lgas" if i % 3 == 0 else "water")
